@@ -19,6 +19,7 @@ var props = map[string]propFunc{
 	"C03": runC03,
 	"C04": runC04,
 	"C18": runC18,
+	"C19": runC19,
 	"C05": runC05,
 	"C06": runC06,
 	"C07": runC07,
